@@ -359,7 +359,9 @@ def extract():
             api = _str(n.value)
     if api is None:
         raise Reject('rpcinterface.API_VERSION not found')
-    return dict(faults=faults_l, lsbinit=lsbinit_l, lsbstat=lsbstat_l, dead=dead, sx_dead=sx_dead, sx_other=sx_other,
+    if 'RUNNING' not in pstates:
+        raise Reject('ProcessStates.RUNNING missing')
+    return dict(ps_running=pstates['RUNNING'], faults=faults_l, lsbinit=lsbinit_l, lsbstat=lsbstat_l, dead=dead, sx_dead=sx_dead, sx_other=sx_other,
                 start_t=start_t, signal_t=signal_t, clear_t=clear_t, start_d=start_d, signal_d=signal_d, clear_d=clear_d, signal_success=signal_success,
                 stop_success=stop_success, ignored=ignored, stopped=stopped, api=api)
 
@@ -423,6 +425,7 @@ def render(d):
             act, '; '.join('None' if v is None else 'Some %s' % zl(v) for v in d['ignored'][act])))
     w('')
     w('Definition STOPPED_STATES : list Z := [%s].' % '; '.join(zl(v) for v in d['stopped']))
+    w('Definition PS_RUNNING : Z := %s.' % zl(d['ps_running']))
     w('Definition API_VERSION : string := %s.' % coq_str(d['api']))
     w('(* errno values of the platform the check runs on *)')
     w('Definition ECONNREFUSED : Z := %d.' % errno.ECONNREFUSED)
